@@ -130,8 +130,11 @@ auto unpct(std::string const& s) -> std::string
 }
 auto show_case(Case const& k) -> std::string { return k.fn + " " + k.ty + " " + std::to_string(k.base) + " s=" + pct(k.s); }
 
-auto vis(std::string const& s) -> std::string
+auto vis(std::string const& full) -> std::string
 {
+    // long inputs are abbreviated (deterministically) so that a detail string stays readable
+    std::string s = full;
+    if (s.size() > 100) { s = full.substr(0, 30) + "...(" + std::to_string(full.size()) + " bytes in total)..." + full.substr(full.size() - 44); }
     std::string o = "\"";
     for (unsigned char c : s) {
         if (c >= 0x20 && c < 0x7f && c != '"' && c != '\\') {
@@ -646,8 +649,11 @@ auto gen_case(vf::Rng& rng, Meta& m) -> Case
     auto const z = rng.below(100);
     if (z < 18) {
         zeros = std::string(1 + rng.below(3), '0');
-    } else if (z < 20) {
-        zeros = std::string(60 + rng.below(20), '0');
+    } else if (z < 22) { // long zero runs: around 64, 128, 256 and 512 digits in total (counter widths)
+        static unsigned const lo[] = {60, 120, 245, 500};
+        static unsigned const span[] = {20, 16, 80, 30};
+        auto const w = rng.below(4);
+        zeros        = std::string(lo[w] + rng.below(span[w]), '0');
     }
     // sign slot
     std::string sign;
@@ -711,7 +717,7 @@ auto gen_case(vf::Rng& rng, Meta& m) -> Case
 void grammar(vf::Ctx& c)
 {
     vf::Rng rng(c.seed);
-    std::uint64_t const total = c.thorough() ? 16000000ULL : 480000ULL;
+    std::uint64_t const total = c.thorough() ? 16000000ULL : 1600000ULL;
     std::uint64_t const per   = total / static_cast<std::uint64_t>(c.nshards) + 1;
     for (std::uint64_t i = 0; i < per; ++i) {
         Meta m;
@@ -805,7 +811,7 @@ void limit_windows(vf::Ctx& c)
     for (auto const& t : g_types) {
         bool const small  = t.mx <= 255;
         bool const medium = !small && t.mx <= 65535;
-        auto const& bases = (small || c.thorough()) ? allBases : fewBases;
+        auto const& bases = (small || medium || c.thorough()) ? allBases : fewBases;
         for (int base : bases) {
             for (char const* fn : {"from_chars", "to_integer_ws1_ov1", "to_integer_ws0_ov0"}) {
                 if (small) {
@@ -837,6 +843,86 @@ void limit_windows(vf::Ctx& c)
     flush_stats("window");
 }
 
+// ---------------------------------------------------------------------------------------------- exhaustive: long digit strings
+// Leading zeros so that the TOTAL number of digit characters takes every value in windows around 64, 128, 256..330,
+// 512 and 1024 (and, for a few targets, 65536): in-range, limit, limit +- 1 and one-digit-too-long bodies for every
+// integer type in bases 2, 8, 10, 16, 36.  (A digit counter narrower than size_t wraps exactly there.)
+void long_inputs(vf::Ctx& c)
+{
+    std::vector<int> lens;
+    auto span = [&](int lo, int hi) {
+        for (int i = lo; i <= hi; ++i) { lens.push_back(i); }
+    };
+    span(60, 70);
+    span(120, 135);
+    span(250, 330);
+    span(500, 530);
+    span(1020, 1030);
+    vf::Rng rng(c.seed ^ 0x10e6ULL);
+    std::uint64_t idx = 0;
+    auto family       = [&](char const* fn, char const* ty, TypeInfo const& t, int base, std::vector<int> const& totals, bool few) {
+        u128 const posLim = static_cast<u128>(t.mx);
+        u128 const negLim = t.mn < 0 ? static_cast<u128>(-(t.mn + 1)) + 1 : 0;
+        struct Body {
+            bool neg;
+            std::string digits;
+            bool limit;
+        };
+        std::vector<Body> bodies;
+        bodies.push_back({false, render(posLim, base, 0, nullptr), true});
+        bodies.push_back({false, render(posLim + 1, base, 1, nullptr), true});
+        if (!few) {
+            bodies.push_back({false, render(posLim - 1, base, 0, nullptr), true});
+            bodies.push_back({false, render(posLim, base, 0, nullptr) + "0", true});
+            bodies.push_back({false, render(posLim / static_cast<unsigned>(base) + 1, base, 1, nullptr) + digit_char(base - 1, false), true}); // same length as the limit, larger
+            bodies.push_back({false, "1", false});
+            bodies.push_back({false, render(rng.next() % (posLim + 1), base, 2, &rng), false});
+            if (t.mn < 0) {
+                bodies.push_back({true, render(negLim, base, 0, nullptr), true});
+                bodies.push_back({true, render(negLim + 1, base, 1, nullptr), true});
+                bodies.push_back({true, render(negLim, base, 0, nullptr) + "0", true});
+                bodies.push_back({true, render(rng.next() % (negLim + 1), base, 2, &rng), false});
+            }
+        }
+        for (int total : totals) {
+            if (!c.mine(idx++)) { continue; }
+            for (auto const& b : bodies) {
+                if (static_cast<int>(b.digits.size()) > total) { continue; }
+                Meta m;
+                m.validDigit = true;
+                m.leadZero   = true;
+                m.sign       = b.neg;
+                m.limit      = b.limit;
+                Case k{fn, ty, base, std::string(b.neg ? "-" : "") + std::string(static_cast<std::size_t>(total) - b.digits.size(), '0') + b.digits};
+                if ((total & 3) == 1) {
+                    k.s += "g!";
+                    m.tail = base <= 16;
+                }
+                exec(k, m, true);
+            }
+        }
+    };
+    for (int base : {2, 3, 7, 8, 10, 16, 36}) {
+        for (auto const& t : g_types) {
+            for (char const* fn : {"from_chars", "to_integer_ws1_ov1", "to_integer_ws0_ov1"}) { family(fn, t.name, t, base, lens, false); }
+        }
+        for (char const* fn : {"strtol", "strtoll", "strtoul", "strtoull", "atoi", "atol", "atoll", "stoi", "stol", "stoll", "stoul", "stoull"}) {
+            if (std::string(fn).rfind("ato", 0) == 0 && base != 10) { continue; }
+            family(fn, "-", *type_by_name(target_of(fn)), base, lens, false);
+        }
+    }
+    // 16-bit counters: totals around 65536 for a few targets
+    std::vector<int> big;
+    for (int i = 65530; i <= 65605; ++i) { big.push_back(i); }
+    for (int base : {2, 10, 16}) {
+        for (char const* ty : {"u8", "i32", "u32", "ll", "ull"}) {
+            family("from_chars", ty, *type_by_name(ty), base, big, true);
+            family("to_integer_ws1_ov1", ty, *type_by_name(ty), base, big, true);
+        }
+    }
+    flush_stats("long");
+}
+
 auto parse_case(std::string const& cs, Case& k) -> bool
 {
     std::istringstream is(cs);
@@ -853,6 +939,7 @@ void vf_run(vf::Ctx& c)
 {
     short_strings(c);
     limit_windows(c);
+    long_inputs(c);
     grammar(c);
 }
 
